@@ -48,7 +48,12 @@ def _pair_cmd(pi, pj):
 
 def _lat(tokens):
     """real nm -> lattice; returns (tuple of ints or None if not on the integer lattice, raw floats)"""
-    raw = [float(t) * U for t in tokens]
+    try:
+        raw = [float(t) * U for t in tokens]
+    except ValueError:
+        return None, list(tokens)
+    if len(raw) != 3:
+        return None, raw
     out = []
     for v in raw:
         if v != v or v in (float("inf"), float("-inf")):
@@ -77,7 +82,10 @@ def _parse_box(lines):
             return ln
         if ln.startswith("type "):
             p = ln.split()
-            return {"type": p[1], "vol": float(p[3]), "box": [float(t) for t in p[5:14]]}
+            try:
+                return {"type": p[1], "vol": float(p[3]), "box": [float(t) for t in p[5:14]]}
+            except (IndexError, ValueError):
+                return "exc unreadable answer %r" % ln
     return "exc no output"
 
 
@@ -176,7 +184,10 @@ class _Checker:
             if not ln.startswith("short "):
                 self._viol("ShortestBoxSize:%s:exception" % typ, ln, rep)
             else:
-                h = float(ln.split()[1]) * U
+                try:
+                    h = float(ln.split()[1]) * U
+                except (IndexError, ValueError):
+                    h = float("nan")
                 # integer identity  h^2 * |n|^2 = V^2  for the face with the largest normal
                 if not (h > 0 and vlib.close(h * h * rec["hn2"], float(rec["vol"]) ** 2, 1e-9, 0)):
                     self._viol("ShortestBoxSize:%s" % typ,
